@@ -4,11 +4,13 @@
 (*   modes[k]   what was CONFIGURED for mode k (baud rate, bit rate, fits, threshold = OSNR + margin, reciprocal *)
 (*              transmitter OSNR, penalty points as listed in the file) and the figures of mode k propagated ALONE on a fresh copy   *)
 (*              of the path with the implementation's own propagate(): pf (forward), pr (reverse)              *)
-(*   addf/addr  reciprocal OSNR configured for every add/drop stage crossed, forward / reverse                 *)
+(*   stf/str    CONFIGURATION of every add/drop stage crossed, forward / reverse: profiles of the ROADM type as   *)
+(*              listed, profile id selected for the degrees (NONE: none), default (FeasibilityOps.StageInv)    *)
 (*   ev         every recomputation of receiver figures, in order: the pristine ones (kind 0, a reference      *)
 (*              [mode, dir] to pf / pr) and the ones the request itself went through (kind 1: update_snr +     *)
 (*              calc_penalties observed on the receiver, nup = how many times this receiver object had been    *)
-(*              updated so far)                                                                                *)
+(*              updated so far) and, for a bidirectional request, the receiver figures of the reverse path     *)
+(*              RETURNED for it (kind 2).  A request of a batch carries the pristine figures of ITS OWN route. *)
 (*   out        what the code answered: selected mode and blocking reason                                      *)
 (* Monitor-shaped: every event is consumed, `viol` accumulates <<step, clause>>, the last step judges the       *)
 (* verdict; one line per trace is printed.  All figures are per channel.                                       *)
@@ -24,7 +26,7 @@ VARIABLES tid, i, viol
 vars == <<tid, i, viol>>
 
 Chans(e)     == 1..Len(e.rx)
-AddsOf(tr, e) == IF e.dir = 0 THEN tr.addf ELSE tr.addr
+StagesOf(tr, e) == IF e.dir = 0 THEN tr.stf ELSE tr.str
 Pristine(tr, k, dir) == IF dir = 0 THEN tr.modes[k].pf ELSE tr.modes[k].pr
 
 EventAt(tr, k) == LET e == tr.ev[k] IN IF e.kind = 0 THEN Pristine(tr, e.mode, e.dir) ELSE e
@@ -37,9 +39,11 @@ EvalClauses(tr, e) ==
       tcd  == TableOf(m.cd)           \* the tables as WRITTEN in the equipment file, ordered by the specification
       tpmd == TableOf(m.pmd)
       tpdl == TableOf(m.pdl)
-  IN  (IF PointsOK(m.cd) /\ PointsOK(m.pmd) /\ PointsOK(m.pdl) /\ TableOK(tcd) /\ TableOK(tpmd) /\ TableOK(tpdl)
+      st   == StagesOf(tr, e)
+  IN  (IF \A j \in 1..Len(st) : StageOK(st[j]) THEN {} ELSE {"StageWellFormed"}) \cup
+      (IF PointsOK(m.cd) /\ PointsOK(m.pmd) /\ PointsOK(m.pdl) /\ TableOK(tcd) /\ TableOK(tpmd) /\ TableOK(tpdl)
        THEN {} ELSE {"TableWellFormed"})
-      \cup (IF \A c \in Chans(e) : CompositionOK(e.rx[c], e.line[c], m.tx, AddsOf(tr, e), TolInv)
+      \cup (IF \A c \in Chans(e) : CompositionOK(e.rx[c], e.line[c], m.tx, AddsOf(st), TolInv)
             THEN {} ELSE {"CompositionLaw"})
       \cup (IF \A c \in Chans(e) : /\ PenaltyOK(tcd, e.cd[c], e.pcd[c], TolPen)
                                    /\ PenaltyOK(tpmd, e.pmd[c], e.ppmd[c], TolPen)
@@ -50,6 +54,16 @@ EvalClauses(tr, e) ==
                ~(Len(p.rxdb) = Len(e.rxdb) /\ \A c \in Chans(e) : /\ SameFigure(e.rxdb[c], p.rxdb[c], TolHist)
                                                                   /\ SameFigure(e.tot[c], p.tot[c], TolHist))
             THEN {"HistoryIndependence"} ELSE {})
+
+\* the reverse result returned for the request must be the one of the request's own route, whatever the batch
+\* propagated before
+ReportedClauses(tr, e) ==
+  LET p == Pristine(tr, e.mode, 1)
+  IN  IF p.ran = 1 /\ ~(Len(p.rxdb) = Len(e.rxdb) /\ \A c \in 1..Len(e.rxdb) : /\ SameFigure(e.rxdb[c], p.rxdb[c], TolHist)
+                                                                                /\ SameFigure(e.tot[c], p.tot[c], TolHist))
+      THEN {"ReverseOnOwnRoute"} ELSE {}
+
+StepClauses(tr, e) == IF e.kind = 2 THEN ReportedClauses(tr, e) ELSE EvalClauses(tr, e)
 
 \* the library as the property sees it: pristine worst channel per mode
 ModeRec(tr, k, dir) ==
@@ -85,7 +99,7 @@ Init == /\ tid \in 1..Len(T)
 Next == /\ i <= Len(T[tid].ev)
         /\ i' = i + 1
         /\ tid' = tid
-        /\ viol' = viol \cup {<<i + 1, c>> : c \in IF i < Len(T[tid].ev) THEN EvalClauses(T[tid], EventAt(T[tid], i + 1))
+        /\ viol' = viol \cup {<<i + 1, c>> : c \in IF i < Len(T[tid].ev) THEN StepClauses(T[tid], EventAt(T[tid], i + 1))
                                                                        ELSE VerdictClauses(T[tid])}
 
 \* verdict line: one per trace, printed when the verdict step has been taken
